@@ -123,8 +123,13 @@ def regen_tables():
         return False, "tabledump failed:\n" + js[-3000:]
     jp = os.path.join(BUILD, "tables.json")
     open(jp, "w").write(js)
-    rc, out = sh([sys.executable, os.path.join(VERIF, "tools", "gen_tables.py"), jp, os.path.join(LEAN, "Shm", "Gen")])
-    return rc == 0, out
+    ap = os.path.join(BUILD, "attrs.json")
+    rc, out0 = sh([sys.executable, os.path.join(VERIF, "tools", "translate_attrs.py"), REPO, os.path.join(BUILD, "plain"),
+                   os.path.join(VERIF, "tools", "attr_special.json"), ap])
+    if rc != 0:
+        return False, "translate_attrs failed:\n" + out0[-3000:]
+    rc, out = sh([sys.executable, os.path.join(VERIF, "tools", "gen_tables.py"), jp, os.path.join(LEAN, "Shm", "Gen"), ap])
+    return rc == 0, out0 + out
 
 
 def lake_build():
